@@ -29,11 +29,13 @@ EngineDevNames == {"LimitPerFile", "LimitAfterEmit", "LimitSkipsNullRows", "Limi
 \* ------------------------------------------------------------------ tables and lines
 \* main table t(k TEXT, v INT) over lines  k=<word> v=<int> ; joined table u(k TEXT, w INT)
 KV(k, v)  == [kind |-> "kv", k |-> k, v |-> v]
+\* a byte order mark (U+FEFF) in front of the text of a row: part of the line like any other character, wherever in the file the line stands
+BomPre    == [kind |-> "longpre", n |-> 1, c |-> 65279]
 Garbage   == [kind |-> "garbage"]
 Empty     == [kind |-> "empty"]
 Near      == [kind |-> "near"]
 BigV      == [kind |-> "bigv"]          \* "k= v=99999999999999999999": the value group takes part but is no INT literal -> NULL (a DEFAULT does not apply), k absent
-LongPre(n) == [kind |-> "longpre", n |-> n]     \* n filler bytes followed by the text of a row: a row for an unanchored pattern, noise for table variant "anch" (^...$)
+LongPre(n) == [kind |-> "longpre", n |-> n, c |-> 35]     \* n filler bytes followed by the text of a row: a row for an unanchored pattern, noise for table variant "anch" (^...$)
 
 Asc(s) == s      \* texts are sequences of code points already
 
@@ -45,7 +47,7 @@ LineText(l) ==
     [] l.kind = "empty" -> <<>>
     [] l.kind = "near" -> <<107, 61, 97, 32, 118, 49>>            \* "k=a v1": one character short of a match
     [] l.kind = "bigv" -> <<107, 61, 32, 118, 61>> \o [i \in 1..20 |-> 57]
-    [] l.kind = "longpre" -> [i \in 1..l.n |-> 35] \o <<107, 61, 97, 32, 118, 61, 49>>
+    [] l.kind = "longpre" -> [i \in 1..l.n |-> l.c] \o <<107, 61, 97, 32, 118, 61, 49>>
 
 \* the row a table variant extracts: <<admitted, k, v>>
 \*   "plain": both nullable;  "knn": k NOT NULL;  "vdef": v INT DEFAULT 7;  "bothnn": k NOT NULL and v NOT NULL;
